@@ -54,6 +54,15 @@ enum Kind {
 
 const KINDS: [Kind; 11] = [Kind::Int, Kind::Float, Kind::Str, Kind::Boolean, Kind::Id, Kind::Custom, Kind::Enum, Kind::Object, Kind::Interface, Kind::Union, Kind::Input];
 
+/// A default value literal of the right list depth for an Int-based expression.
+fn default_literal(nn: &[bool]) -> String {
+    let mut s = "20".to_string();
+    for _ in 1..nn.len() {
+        s = format!("[{}]", s);
+    }
+    s
+}
+
 fn build(kind: Kind, exprs: &[Vec<bool>]) -> (Schema, Document, Named) {
     let mut schema = Schema {
         objects: vec![
@@ -65,7 +74,7 @@ fn build(kind: Kind, exprs: &[Vec<bool>]) -> (Schema, Document, Named) {
         enums: vec![EnumT { name: "Color".into(), values: vec!["RED".into(), "GREEN".into()], deprecated_values: vec![] }],
         scalars: vec![ScalarT { name: "Stamp".into(), repr: ScalarRepr::StringAlias }],
         inputs: vec![
-            InputT { name: "Other".into(), fields: vec![InputFieldDef { name: "x".into(), ty: TypeExpr::plain(Named::Int, false) }], one_of: false },
+            InputT { name: "Other".into(), fields: vec![InputFieldDef { name: "x".into(), ty: TypeExpr::plain(Named::Int, false), default: None }], one_of: false },
             InputT { name: "Holder".into(), fields: vec![], one_of: false },
             InputT { name: "OneHolder".into(), fields: vec![], one_of: true },
         ],
@@ -94,9 +103,9 @@ fn build(kind: Kind, exprs: &[Vec<bool>]) -> (Schema, Document, Named) {
         let ty = TypeExpr::new(named, nn.clone());
         if named.is_input_kind() && kind != Kind::Input || kind == Kind::Input {
             // input positions
-            schema.inputs[1].fields.push(InputFieldDef { name: format!("m{}", i), ty: ty.clone() });
+            schema.inputs[1].fields.push(InputFieldDef { name: format!("m{}", i), ty: ty.clone(), default: if i % 3 == 0 && kind == Kind::Int { Some(default_literal(nn)) } else { None } });
             if !nn[0] {
-                schema.inputs[2].fields.push(InputFieldDef { name: format!("o{}", i), ty: ty.clone() });
+                schema.inputs[2].fields.push(InputFieldDef { name: format!("o{}", i), ty: ty.clone(), default: None });
             }
             vars.push(VarDef { name: format!("v{}", i), ty: ty.clone(), default: None });
             let mut aty = ty.clone();
@@ -116,10 +125,10 @@ fn build(kind: Kind, exprs: &[Vec<bool>]) -> (Schema, Document, Named) {
         }
     }
     if schema.inputs[2].fields.is_empty() {
-        schema.inputs[2].fields.push(InputFieldDef { name: "unused".into(), ty: TypeExpr::plain(Named::Int, false) });
+        schema.inputs[2].fields.push(InputFieldDef { name: "unused".into(), ty: TypeExpr::plain(Named::Int, false), default: None });
     }
     if schema.inputs[1].fields.is_empty() {
-        schema.inputs[1].fields.push(InputFieldDef { name: "unused".into(), ty: TypeExpr::plain(Named::Int, false) });
+        schema.inputs[1].fields.push(InputFieldDef { name: "unused".into(), ty: TypeExpr::plain(Named::Int, false), default: None });
     }
     probe_args.push(ArgDef { name: "holder".into(), ty: TypeExpr::plain(Named::Input(1), false) });
     probe_args.push(ArgDef { name: "one".into(), ty: TypeExpr::plain(Named::Input(2), false) });
